@@ -16,6 +16,8 @@ mod p_compare;
 mod p_generate;
 mod p_hashes;
 mod p_text;
+#[cfg(feature = "strict-parser")]
+mod p_strict;
 #[cfg(feature = "unchecked")]
 mod p_unchecked;
 mod types;
@@ -49,14 +51,34 @@ fn dispatch(pid: &str, ctx: &mut Ctx) -> Option<R> {
         "C18" => p_generate::c18(ctx),
         "C19" => p_hashes::c19(ctx),
         "C20" => p_compare::c20(ctx),
-        // C14: feature sets cannot be switched at run time; what can be explored is the
-        // agreement of the `*_unchecked` entry points with their checked twins, which only
-        // exist when the library is built with its `unchecked` feature
-        #[cfg(feature = "unchecked")]
-        "C14" => p_unchecked::c14(ctx),
+        // C14: feature sets cannot be switched at run time; what can be explored is what
+        // exists only in a feature build: the `*_unchecked` entry points against their
+        // checked twins (library feature `unchecked`), the strict parser against its
+        // statement (library feature `strict-parser`)
+        #[cfg(any(feature = "unchecked", feature = "strict-parser"))]
+        "C14" => c14(ctx),
         // unknown ids: nothing to explore
         _ => return None,
     })
+}
+
+#[cfg(any(feature = "unchecked", feature = "strict-parser"))]
+fn c14(ctx: &mut Ctx) -> R {
+    #[cfg(all(feature = "unchecked", feature = "strict-parser"))]
+    {
+        let old = ctx.narrow(0.5);
+        p_strict::c14_strict(ctx)?;
+        ctx.restore(old);
+        p_unchecked::c14(ctx)
+    }
+    #[cfg(all(feature = "unchecked", not(feature = "strict-parser")))]
+    {
+        p_unchecked::c14(ctx)
+    }
+    #[cfg(all(feature = "strict-parser", not(feature = "unchecked")))]
+    {
+        p_strict::c14_strict(ctx)
+    }
 }
 
 /// Returns true when a disagreement was found (and printed).
@@ -67,7 +89,7 @@ fn run(pid: &str, seed: u64, budget: f64) -> bool {
     match res {
         Ok(None) => {
             if pid == "C14" {
-                println!("explored 0 inputs, 0 distinct checks, no disagreement (library built without the unchecked feature)");
+                println!("explored 0 inputs, 0 distinct checks, no disagreement (library built without the unchecked feature and without the strict-parser feature)");
             } else {
                 println!("explored 0 inputs, 0 distinct checks, no disagreement");
             }
